@@ -295,6 +295,79 @@ def rule_body_text(ctx, file, s):
                 i = cb
     return s
 
+
+# --------------------------------------------------------------------------------------------
+# R-inline: a NEW private helper without a contract (found by the runner against the baseline) is inlined at its call sites,
+# because Verus checks a caller against the callee's contract and a brand-new helper has none.  Only for helpers whose body has
+# no `return` / `?` (which would leave the caller instead of the helper), no generics and identifier parameters; `Self::h(..)`,
+# `self.h(..)` and free `h(..)` calls.  `h(a, b)` -> `{ let (p1, p2): (T1, T2) = (a, b); BODY }` - the definition of a call.
+# --------------------------------------------------------------------------------------------
+def collect_inline_defs(keys):
+    """keys: set of 'file|impl::name' -> {name: def}; def = dict(params=[(pat, ty)], selfparam, body, impl, file)"""
+    defs = {}
+    for key in keys:
+        rel, rest = key.split("|", 1)
+        ik, name = rest.rsplit("::", 1)
+        try:
+            items, _ = load_items(rel)
+        except Exception:
+            continue
+        def walk(its, parent):
+            for it in its:
+                if it.kind in ("impl", "trait") and it.children is not None:
+                    walk(it.children, it)
+                elif it.kind == "fn" and it.name == name and it.body is not None:
+                    pk = impl_key(parent) if parent is not None else "-"
+                    if pk != ik: continue
+                    d = sig_split(R.text(it.sig))
+                    if d["gen"].strip() or d["where"].strip(): continue
+                    body = R.text(it.body).strip()
+                    if re.search(r"\breturn\b|\?", body): continue
+                    if re.search(r"\b%s\s*\(" % re.escape(name), body): continue      # recursive
+                    params = []; selfparam = None; ok = True
+                    for prm in split_top(d["params"]):
+                        prm = prm.strip()
+                        if not prm: continue
+                        if re.match(r"^&?\s*(mut\s+)?self$", prm) or re.match(r"^&'\w+\s+(mut\s+)?self$", prm): selfparam = prm; continue
+                        m = re.match(r"^(mut\s+)?(\w+)\s*:\s*(.+)$", prm, re.S)
+                        if not m or "impl " in m.group(3) or re.search(r"'(?!static)\w+", m.group(3)): ok = False; break
+                        params.append((("mut " if m.group(1) else "") + m.group(2), m.group(3).strip()))
+                    if not ok: continue
+                    if name in defs: defs[name] = None; continue    # ambiguous name: do not inline
+                    defs[name] = {"params": params, "selfparam": selfparam, "body": body, "impl": ik, "file": rel, "uses_self_ty": bool(re.search(r"\bSelf\b", body))}
+        walk(items, None)
+    return {k: v for k, v in defs.items() if v}
+
+def inline_helpers(ctx, rel, ik, s):
+    defs = getattr(ctx, "inline_defs", None)
+    if not defs: return s
+    for _round in range(3):
+        changed = False
+        for name, d in defs.items():
+            if d["selfparam"]: pat = r"(?<![\w.:])self\.%s\s*\(" % re.escape(name)
+            elif d["impl"] != "-": pat = r"(?<![\w.:])Self::%s\s*\(" % re.escape(name)
+            else: pat = r"(?<![\w.:])%s\s*\(" % re.escape(name)
+            i = 0
+            while True:
+                m = re.search(pat, s[i:])
+                if not m: break
+                st = i + m.start(); op = i + m.end() - 1
+                cl = find_matching(s, op)
+                args = [a.strip() for a in split_top(s[op + 1:cl]) if a.strip()]
+                if len(args) != len(d["params"]): i = cl; continue
+                inner = d["body"][1:-1]
+                if args:
+                    pats = ", ".join(p for p, _ in d["params"]); tys = ", ".join(t for _, t in d["params"])
+                    if len(args) == 1: bind = "let %s: %s = %s;" % (pats, tys, args[0])
+                    else: bind = "let (%s): (%s) = (%s);" % (pats, tys, ", ".join(args))
+                else: bind = ""
+                new = "{ %s %s }" % (bind, inner)
+                ctx.log("R-inline", rel, 0, s[st:cl + 1][:100], ("{ %s <body of %s> }" % (bind, name))[:160])
+                s = s[:st] + new + s[cl + 1:]
+                i = st + len(new); changed = True
+        if not changed: break
+    return s
+
 FOLD_SRC = re.compile(r"Self\((\w+)\.iter\(\)\.fold\((\w+), \|mut (\w+), (\w+)\| \{(.*?)\n\s*\3\n\s*\}\)\)", re.S)
 def rule_fold(ctx, file, s):
     def f(m):
@@ -701,6 +774,7 @@ class FileEmitter:
                     declared = int(spec.opts.get("keyfrom", 0)) if spec else 0
                     if nkf != declared:
                         raise ExtractError("call site needs contract: %s fn %s has %d Key::from(<slice>) call(s) but its contract declares keyfrom=%d (DESIGN 1.2)" % (self.rel, it.name, nkf, declared))
+                    b = inline_helpers(ctx, self.rel, ik, b)
                     b = rule_fold(ctx, self.rel, b)
                     b = rule_body_text(ctx, self.rel, b)
                     b = self.rule_lift(b, spec, it)
@@ -907,7 +981,7 @@ def emit_module(ctx, out, rel, modname, include, stubset, depth=0):
     if modname is not None:
         out.add("} // mod %s\n" % modname)
 
-def build(include=None, stubset=(), spec_paths=None, shim_paths=None, out_path=None, stub_fns=(), drop_uses=(), drop_contract_fns=(), ext_consts=(), renames=None):
+def build(include=None, stubset=(), spec_paths=None, shim_paths=None, out_path=None, stub_fns=(), drop_uses=(), drop_contract_fns=(), ext_consts=(), renames=None, inline_fns=()):
     specs = Specs()
     for p in (spec_paths or []):
         parse_vspec(p, specs)
@@ -915,7 +989,7 @@ def build(include=None, stubset=(), spec_paths=None, shim_paths=None, out_path=N
     ctx_theorems = []
     ctx.theorems = ctx_theorems
     ctx.files = []; ctx.excluded = []
-    ctx.stub_fns = set(stub_fns); ctx.drop_uses = set(drop_uses); ctx.drop_contract_fns = set(drop_contract_fns); ctx.ext_consts = set(ext_consts); ctx.renames = dict(renames or {})
+    ctx.stub_fns = set(stub_fns); ctx.drop_uses = set(drop_uses); ctx.drop_contract_fns = set(drop_contract_fns); ctx.ext_consts = set(ext_consts); ctx.renames = dict(renames or {}); ctx.inline_defs = collect_inline_defs(set(inline_fns)) if inline_fns else {}
     ctx.used_companions = set(); ctx.used_implitems = set(); ctx.lost_contracts = []
     out = Out()
     out.add("#![feature(allocator_api)]\n#![feature(sized_hierarchy)]\n#![allow(unused)]\n#![allow(unused_imports, dead_code, non_camel_case_types, unused_parens, unused_braces)]\nuse vstd::prelude::*;\n")
